@@ -210,6 +210,9 @@ func (x *Exec) randomOp(maxEnt int) (GenOp, bool) {
 		o.Mode = []string{"fresh", "reset", "nojson"}[x.rng.Intn(3)]
 		return o, true
 	}
+	if x.Cfg.ObsP > 0 && x.rng.Intn(1000) < x.Cfg.ObsP {
+		kind = 98
+	}
 	if len(x.queries) > 0 {
 		// the world is locked by open queries: advance / close them, open more, write through Set,
 		// emit events, (un)register filters - and occasionally attempt a structural change (must panic)
@@ -340,6 +343,9 @@ func (x *Exec) randomOp(maxEnt int) (GenOp, bool) {
 		o.Mode = "fn"
 		o.Flt = x.randomFilter(vs, "")
 		x.maybeRegistered(&o)
+		if o.F == 0 {
+			x.remember(o.Flt)
+		}
 		return o, true
 	case kind < 80: // SetRel
 		cands := []entView{}
@@ -374,25 +380,49 @@ func (x *Exec) randomOp(maxEnt int) (GenOp, bool) {
 		o.Flt = x.randomFilter(vs, r)
 		o.Tg[r] = x.pickTarget(vs)
 		x.maybeRegistered(&o)
+		if o.F == 0 {
+			x.remember(o.Flt)
+		}
 		return o, true
-	case kind < 88: // AddBatch: filter excludes the added component
-		c := comps[x.rng.Intn(len(comps))]
+	case kind < 88: // AddBatch: filter excludes the added components
+		add := []string{comps[x.rng.Intn(len(comps))]}
+		if x.Cfg.Arity && x.rng.Intn(2) == 0 {
+			add = x.subset(comps, 1) // an instantiated tuple of any arity
+			if len(add) > 8 {
+				add = add[:1]
+			}
+		}
 		o := mk("AddBatch")
 		o.Mode = []string{"fn", "val"}[x.rng.Intn(2)]
-		o.Add = []string{c}
-		o.Vals[c] = int64(8000 + x.rng.Intn(100))
-		if isRelName(c) {
-			o.Tg[c] = x.pickTarget(vs)
+		o.Add = add
+		inAdd := map[string]bool{}
+		for _, c := range add {
+			inAdd[c] = true
+			o.Vals[c] = int64(8000 + x.rng.Intn(100))
+			if isRelName(c) {
+				o.Tg[c] = x.pickTarget(vs)
+			}
 		}
 		o.Flt = x.randomFilter(vs, "")
 		o.Flt.Excl = false
-		wo := []string{c}
+		with := []string{}
 		for _, w := range o.Flt.With {
-			if w == c {
-				return GenOp{}, false
+			if !inAdd[w] {
+				with = append(with, w)
 			}
 		}
-		o.Flt.Without = wo
+		o.Flt.With = with
+		for c := range o.Flt.Ft {
+			if inAdd[c] {
+				delete(o.Flt.Ft, c)
+			}
+		}
+		for c := range o.Flt.Qt {
+			if inAdd[c] {
+				delete(o.Flt.Qt, c)
+			}
+		}
+		o.Flt.Without = add
 		return o, true
 	case kind < 89 && x.rng.Intn(2) == 0: // ExchangeBatch: filter requires the removed and excludes the added component
 		if len(comps) < 2 {
@@ -437,7 +467,7 @@ func (x *Exec) randomOp(maxEnt int) (GenOp, bool) {
 		o.Flt = x.randomFilter(vs, "")
 		o.Flt.Qt = FlexMap[int]{}
 		return o, true
-	case kind < 99 && x.Cfg.Observers > 0 && x.rng.Intn(2) == 0:
+	case kind < 99 && x.Cfg.Observers > 0 && (kind == 98 || x.rng.Intn(2) == 0):
 		// observers: register / unregister / emit a custom event
 		ids := []int{}
 		for id := range x.obs {
@@ -642,6 +672,19 @@ func (x *Exec) randomQOpen(vs []entView, mk func(string) GenOp) GenOp {
 		o.Q++
 	}
 	o.Flt = x.randomFilter(vs, "")
+	if len(x.recent) > 0 && x.rng.Intn(2) == 0 {
+		// the same filter object as a recent batch or query, with other per-query targets
+		r := x.recent[x.rng.Intn(len(x.recent))]
+		o.Flt = GenFlt{With: r.With, Without: r.Without, Excl: r.Excl, Ft: r.Ft, Qt: FlexMap[int]{}}
+		for _, c := range r.With {
+			if _, fixed := r.Ft[c]; isRelName(c) && !fixed && x.rng.Intn(4) != 0 {
+				o.Flt.Qt[c] = x.pickTarget(vs)
+			}
+		}
+		x.remember(o.Flt)
+		return o
+	}
+	defer func() { x.remember(o.Flt) }()
 	// sometimes through a registered filter
 	for _, id := range x.sortedFilterIDs() {
 		rf := x.filters[id]
@@ -658,4 +701,22 @@ func (x *Exec) randomQOpen(vs []entView, mk func(string) GenOp) GenOp {
 		}
 	}
 	return o
+}
+
+// remember keeps the definitions of filters used recently (with relation components), so that later
+// queries reuse the same long-lived filter object with different per-query targets.
+func (x *Exec) remember(f GenFlt) {
+	hasRel := false
+	for _, c := range f.With {
+		if isRelName(c) {
+			hasRel = true
+		}
+	}
+	if !hasRel {
+		return
+	}
+	x.recent = append(x.recent, f)
+	if len(x.recent) > 6 {
+		x.recent = x.recent[1:]
+	}
 }
